@@ -1035,6 +1035,17 @@ class DistributedShampoo(torch.optim.Optimizer):
 
             # Check if gradient list is empty. If so, continue.
             if not state_lists[MASKED_BLOCKED_GRADS]:
+                # NOTE: With a distributor that distributes the blocks across ranks (DDP, HSDP, HybridShard), all blocks
+                # assigned to this rank may lack gradients while blocks assigned to other ranks in the group have one.
+                # Those ranks perform the AllGather in update_params(), so this rank must count the step and take part
+                # in the communication as well; otherwise the collectives are misaligned and the replicas diverge.
+                # This bypasses self._per_group_step (possibly PT2-compiled): there is nothing to compute locally and
+                # torch._foreach_* ops do not accept empty lists.
+                if state_lists[DISTRIBUTOR].peers_have_gradients():
+                    state_lists[STEP].add_(1)
+                    state_lists[DISTRIBUTOR].update_params(
+                        masked_blocked_search_directions=()
+                    )
                 continue
 
             # Iterate group step counter and define Python scalar step.
